@@ -139,18 +139,19 @@ func openState(path, marshaler string, wrap func(inmem.BackingStore) inmem.Backi
 
 // op is one operation of the stream, fully determined by (seed, index) and the version it read.
 type op struct {
-	K      int               `json:"k"`
-	Kind   string            `json:"kind"` // create | update | destroy
-	ID     string            `json:"id"`
-	Owner  string            `json:"owner"`
-	Ver    uint64            `json:"ver"` // version carried by the object (update)
-	Stale  bool              `json:"stale,omitempty"`
-	Resubmit bool            `json:"resubmit,omitempty"`
-	Token  string            `json:"token"`
-	Big    int               `json:"big,omitempty"` // payload size (both sides of the compression threshold)
-	Phase  string            `json:"phase"`
-	Fins   []string          `json:"fins"`
-	Labels map[string]string `json:"labels"`
+	K         int               `json:"k"`
+	Kind      string            `json:"kind"` // create | update | destroy
+	ID        string            `json:"id"`
+	Owner     string            `json:"owner"`
+	Ver       uint64            `json:"ver"` // version carried by the object (update)
+	Stale     bool              `json:"stale,omitempty"`
+	Resubmit  bool              `json:"resubmit,omitempty"`
+	HandBuilt bool              `json:"hand_built,omitempty"`
+	Token     string            `json:"token"`
+	Big       int               `json:"big,omitempty"` // payload size (both sides of the compression threshold)
+	Phase     string            `json:"phase"`
+	Fins      []string          `json:"fins"`
+	Labels    map[string]string `json:"labels"`
 }
 
 type ack struct {
@@ -236,6 +237,28 @@ func nextOp(rng *rand.Rand, k, g int, get func(id string) (resource.Resource, bo
 			r.Metadata().Finalizers().Remove(fmt.Sprintf("f%d", rng.IntN(3)))
 		case pick == 3:
 			r.Metadata().Finalizers().Set(nil)
+		}
+
+		if rng.IntN(5) == 0 {
+			// a hand-built object: everything the store looks at is copied over, but the object is a new one (the constructor
+			// stamps its own creation / update times); the store keeps the resource's creation time
+			nr := res.NewA("ns", id)
+			nr.Metadata().SetVersion(r.Metadata().Version())
+			_ = nr.Metadata().SetOwner(r.Metadata().Owner())
+			nr.Metadata().SetPhase(r.Metadata().Phase())
+			nr.Metadata().Finalizers().Set(slices.Clone([]string(*r.Metadata().Finalizers())))
+
+			for k, v := range r.Metadata().Labels().Raw() {
+				nr.Metadata().Labels().Set(k, v)
+			}
+
+			for k, v := range r.Metadata().Annotations().Raw() {
+				nr.Metadata().Annotations().Set(k, v)
+			}
+
+			*res.SpecOf(nr) = *res.SpecOf(r.DeepCopy())
+			r = nr
+			o.HandBuilt = true
 		}
 	case "destroy":
 		o.Owner = cur.Metadata().Owner()
@@ -402,7 +425,9 @@ func (s *suicidalStore) die() {
 	select {} // never returns: the signal is on its way
 }
 
-func (s *suicidalStore) Load(ctx context.Context, h inmem.LoadHandler) error { return s.inner.Load(ctx, h) }
+func (s *suicidalStore) Load(ctx context.Context, h inmem.LoadHandler) error {
+	return s.inner.Load(ctx, h)
+}
 
 func (s *suicidalStore) Put(ctx context.Context, t resource.Type, r resource.Resource) error {
 	s.mu.Lock()
